@@ -684,8 +684,25 @@ func (p *Program) checkIOFrame(cfg *ioFrameCfg) []effectObl {
 			return ""
 		}
 		switch {
-		case path == "os" || path == "io/ioutil" || path == "os/exec" || path == "syscall" || path == "plugin" ||
-			strings.HasPrefix(path, "golang.org/x/sys/") || path == "github.com/djherbis/times":
+		case path == "os":
+			// only the entry points that take a file name (or a raw descriptor); os.Getenv, os.Exit, ... are no file access
+			switch f.Name() {
+			case "Open", "OpenFile", "Create", "CreateTemp", "Stat", "Lstat", "ReadFile", "WriteFile", "ReadDir", "Remove", "RemoveAll",
+				"Mkdir", "MkdirAll", "MkdirTemp", "Rename", "Chmod", "Chown", "Lchown", "Chtimes", "Truncate", "Symlink", "Link",
+				"Readlink", "DirFS", "OpenRoot", "OpenInRoot", "Chdir", "CopyFS", "NewFile":
+				return full
+			}
+		case path == "io/ioutil":
+			switch f.Name() {
+			case "ReadFile", "WriteFile", "ReadDir", "TempFile", "TempDir":
+				return full
+			}
+		case path == "github.com/djherbis/times":
+			switch f.Name() {
+			case "Stat", "Lstat":
+				return full
+			}
+		case path == "os/exec" || path == "syscall" || path == "plugin" || strings.HasPrefix(path, "golang.org/x/sys/"):
 			return full
 		case path == "path/filepath":
 			switch f.Name() {
